@@ -701,3 +701,34 @@ package reftable
 //@   requires m != nil
 //@   modifies buflen, bufdata, anyof(*tableIter), anyof(*indexedTableRefIter), anyof(*filteringRefIterator), anyof(*blockIter)
 //@   ensures result1 == nil ==> result0 != nil && istype(result0.impl, *mergedIter) && asptr(result0.impl, *mergedIter).suppressDeletions == m.suppressDeletions && asptr(result0.impl, *mergedIter).typ == 'g' && wfMI(asptr(result0.impl, *mergedIter))
+
+// A table's update-index range and hash id, as functions of the table value (tables are immutable once opened).
+//@ spec tabMin(t Table) uint64
+//@ spec tabMax(t Table) uint64
+//@ spec tabHash(t Table) HashID
+
+//@ iface Table.MaxUpdateIndex
+//@   pure
+//@   ensures result == tabMax(self)
+
+//@ iface Table.MinUpdateIndex
+//@   pure
+//@   ensures result == tabMin(self)
+
+//@ iface Table.HashID
+//@   pure
+//@   ensures result == tabHash(self)
+
+// From the statement: tables of a merged view have increasing, non-overlapping update-index ranges and one hash type;
+// the view is raw (deletions visible) unless the stack turns suppression on.
+//@ func NewMerged
+//@   props C03 C05
+//@   modifies nothing
+//@   ensures[increasing] result1 == nil ==> (forall i int :: 1 <= i && i < len(tabs) ==> tabMax(tabs[i-1]) < tabMin(tabs[i]))
+//@   ensures[hash] result1 == nil ==> (forall i int :: 0 <= i && i < len(tabs) ==> tabHash(tabs[i]) == hashID)
+//@   ensures[raw] result1 == nil ==> result0 != nil && fresh(result0) && result0.stack == tabs && !result0.suppressDeletions && result0.hashID == hashID
+//@   loop 1 invariant -1 <= rangeindex && rangeindex < len(tabs)
+//@   loop 1 invariant rangeindex >= 0 ==> last == tabs[rangeindex]
+//@   loop 1 invariant rangeindex == -1 ==> last == nil
+//@   loop 1 invariant forall i int :: 1 <= i && i <= rangeindex ==> tabMax(tabs[i-1]) < tabMin(tabs[i])
+//@   loop 1 invariant forall i int :: 0 <= i && i <= rangeindex ==> tabHash(tabs[i]) == hashID && tabs[i] != nil
